@@ -640,7 +640,8 @@ class _Grouper(AsyncIterator[T_co], Generic[R, T_co]):
             raise StopAsyncIteration
         await state.maybe_step()
         # the step advanced the iterator to another group
-        if self._target_key != state.current_key:
+        # (like itertools, ask the key of this group whether it equals the new one)
+        if not self._target_key == state.current_key:
             raise StopAsyncIteration
         return state.consume_value()
 
@@ -707,7 +708,7 @@ class GroupBy(AsyncIterator[Tuple[R, AsyncIterator[T_co]]], Generic[R, T_co]):
             pass
         else:
             # scan to the next group
-            while state.current_key == target_key:
+            while target_key == state.current_key:
                 await state.step()
 
         state.target_key = current_key = state.current_key
